@@ -92,7 +92,7 @@ def gen_quant(w, r, cfg):
     else:
         vs = r.randrange(1 << w.nv)
     return dict(op='quant', how=how, a=_ri(r), b=_ri(r), vars=vs,
-                forall=r.randrange(2), cont=r.randrange(5), alias=r.randrange(2),
+                forall=r.randrange(2), cont=r.randrange(7), alias=r.randrange(2),
                 kwarg=r.randrange(2), keep=r.random() < cfg['keep_rate'])
 
 
